@@ -139,6 +139,14 @@ func (c *Ctx) add(st Status, key, pos, fn, msg string) *Obligation {
 // Scope, when set, tells whether a construct at pos / in function fn is relevant to the property.
 var Scope func(property, pos, fn string) bool
 
+// RuleID is the id of the rule being evaluated.
+func (c *Ctx) RuleID() string {
+	if c.cur == nil {
+		return ""
+	}
+	return c.cur.ID
+}
+
 // OK records a discharged obligation.
 func (c *Ctx) OK(key, pos, fn, msg string) { c.add(Discharged, key, pos, fn, msg) }
 
